@@ -1238,3 +1238,50 @@ Qed.
 
 Lemma sorted_order_stable : stable sorted_order.
 Proof. split; [intros ph n l; apply sort_deps_perm | reflexivity]. Qed.
+
+(* ------------------------------------------------------------------------------------------ *)
+(** * Part 6: the pinned tree (dependencies enumerated through a Go map): a spurious execution *)
+
+(* an enumeration that lists the dependencies in one order when recording and in the reverse order
+   when comparing — both are permutations, as two iterations over a Go map may be *)
+Definition flip_order : order := fun ph _ l => match ph with Rec => l | Cmp => rev l end.
+
+Lemma flip_oracle_ok : oracle_ok (const_oracle flip_order).
+Proof. intros c [] n l; simpl; [apply Permutation_refl | apply Permutation_sym, Permutation_rev]. Qed.
+
+Definition sum_proc : procfn := fun ins => fold_right Z.add 0%Z (concat ins).
+
+Definition spurious_decls : list decl :=
+  [DParam 3%Z; DParam 4%Z; DStruct [("A"%string, false); ("B"%string, false)] sum_proc].
+Definition spurious_hist : list op :=
+  [SetParam 1 5%Z; Connect 2 "A"%string 0; Connect 2 "B"%string 1; Read 2].
+
+(* after the history (which ends with a read of node 2) two further reads of node 2 with NOTHING in
+   between: each of them executes the node again although nothing changed (the value stays right) *)
+Lemma spurious_witness :
+  exists s1 s2 s3,
+    run (const_oracle flip_order) (init spurious_decls) spurious_hist = Some s1 /\
+    execs_of (nodes s1) 2 = 1 /\
+    read (const_oracle flip_order) s1 2 = Some (s2, 8%Z) /\ execs_of (nodes s2) 2 = 2 /\
+    read (const_oracle flip_order) s2 2 = Some (s3, 8%Z) /\ execs_of (nodes s3) 2 = 3 /\
+    eval_now s1 2 = Some 8%Z.
+Proof.
+  eexists. eexists. eexists.
+  split; [vm_compute; reflexivity|]. split; [vm_compute; reflexivity|].
+  split; [vm_compute; reflexivity|]. split; [vm_compute; reflexivity|].
+  split; [vm_compute; reflexivity|]. split; vm_compute; reflexivity.
+Qed.
+
+(* with the repaired (sorted) order the same history executes node 2 exactly once *)
+Lemma sorted_witness :
+  exists s1 s2 s3,
+    run sorted_oracle (init spurious_decls) spurious_hist = Some s1 /\
+    execs_of (nodes s1) 2 = 1 /\
+    read sorted_oracle s1 2 = Some (s2, 8%Z) /\ execs_of (nodes s2) 2 = 1 /\
+    read sorted_oracle s2 2 = Some (s3, 8%Z) /\ execs_of (nodes s3) 2 = 1.
+Proof.
+  eexists. eexists. eexists.
+  split; [vm_compute; reflexivity|]. split; [vm_compute; reflexivity|].
+  split; [vm_compute; reflexivity|]. split; [vm_compute; reflexivity|].
+  split; vm_compute; reflexivity.
+Qed.
